@@ -1,6 +1,7 @@
 package codecprops
 
 import (
+	"errors"
 	"fmt"
 	"os"
 	"reflect"
@@ -75,6 +76,27 @@ type valCase struct {
 	Format     string  `json:"format"`
 	Value      *aval.V `json:"value"`
 	Extra      string  `json:"extra,omitempty"`
+	// AfterFailure > 0: before the value is encoded, a marshal that fails after that many map entries were written
+	// is performed in the same process (earlier use of the library must not influence later documents)
+	AfterFailure int `json:"after_failed_marshal,omitempty"`
+}
+
+var errFailedMarshal = errors.New("harness: marshaler failing midway")
+
+// failedMarshal performs, on the JSON and the ROR2 writer, a marshal that fails after n entries of a map were written
+// (what a Marshaler with an unset union member or an illegal enum constant does).
+func failedMarshal(n int) {
+	if n <= 0 {
+		return
+	}
+	for _, w := range []restlicodec.Writer{restlicodec.NewCompactJsonWriter(), restlicodec.NewRor2HeaderWriter()} {
+		_ = w.WriteMap(func(kw func(string) restlicodec.Writer) error {
+			for i := 0; i < n; i++ {
+				kw(fmt.Sprintf("leftover%d", i)).WriteString("leftover")
+			}
+			return errFailedMarshal
+		})
+	}
 }
 
 // pick draws an index in [0,n) roughly uniformly: rapid's integer generators are deliberately biased towards small
